@@ -1,3 +1,274 @@
-use crate::SearchResult;
-pub fn search(_seed: u64, _full: bool) -> SearchResult { SearchResult { evaluations: 0, failures: vec![], summary: "not yet implemented".into() } }
-pub fn replay(_case: &[&str]) -> (bool, String) { (false, "not yet implemented".into()) }
+//! C17: the real NodeLabel operations against the bit-string definitions of the contracts
+//! (contracts/common/label_spec.rs, contracts/node_label/unit.toml).
+use crate::{Failure, SearchResult};
+use akd_core::configuration::Configuration;
+use akd_core::types::node_label::vx_export as nl;
+use akd_core::{ExampleLabel, ExperimentalConfiguration, NodeLabel, PrefixOrdering, WhatsAppV1Configuration};
+
+pub fn bit(l: &NodeLabel, i: u32) -> bool {
+    (l.label_val[(i / 8) as usize] >> (7 - (i % 8))) & 1 == 1
+}
+fn agree(a: &NodeLabel, b: &NodeLabel, n: u32) -> bool {
+    (0..n).all(|i| bit(a, i) == bit(b, i))
+}
+pub fn pfx(a: &NodeLabel, b: &NodeLabel) -> bool {
+    a.label_len <= b.label_len && agree(a, b, a.label_len)
+}
+fn canon(l: &NodeLabel) -> bool {
+    l.label_len <= 256 && (l.label_len..256).all(|i| !bit(l, i))
+}
+fn show(l: &NodeLabel) -> String {
+    let mut s = String::new();
+    for b in l.label_val.iter() {
+        s.push_str(&format!("{b:02x}"));
+    }
+    format!("{}:{}", s, l.label_len)
+}
+pub fn parse(s: &str) -> NodeLabel {
+    let (h, l) = s.split_once(':').unwrap();
+    let mut v = [0u8; 32];
+    for k in 0..32 {
+        v[k] = u8::from_str_radix(&h[2 * k..2 * k + 2], 16).unwrap();
+    }
+    NodeLabel::new(v, l.parse().unwrap())
+}
+
+fn fail(clause: &str, op: &str, a: &NodeLabel, b: Option<&NodeLabel>, n: Option<u32>, expected: String, observed: String) -> Failure {
+    let mut case = vec!["c17".to_string(), op.to_string(), show(a)];
+    let mut input = format!("{op}({}", show(a));
+    if let Some(b) = b {
+        case.push(show(b));
+        input.push_str(&format!(", {}", show(b)));
+    }
+    if let Some(n) = n {
+        case.push(n.to_string());
+        input.push_str(&format!(", {n}"));
+    }
+    input.push(')');
+    Failure { clause: format!("node_label/{clause}"), case, input, expected, observed, finding_id: None }
+}
+
+fn check_unary(a: &NodeLabel, out: &mut Vec<Failure>) -> u64 {
+    let mut n = 0;
+    // get_bit_at
+    for i in [0u32, 1, 7, 8, 9, a.label_len.wrapping_sub(1), a.label_len, a.label_len + 1, 255, 256, 257, u32::MAX] {
+        let r = nl::get_bit_at(a, i);
+        let exp = if i < a.label_len && i < 256 { Some(bit(a, i) as u8) } else { None };
+        if r != exp {
+            out.push(fail("NodeLabel.get_bit_at#E_ok", "get_bit_at", a, None, Some(i), format!("{exp:?}"), format!("{r:?}")));
+        }
+        n += 1;
+    }
+    // get_prefix
+    for len in (0..=a.label_len.min(256)).chain([256u32, 257, 1000]) {
+        let r = a.get_prefix(len);
+        let ok = if len >= 256 { r == *a } else if len <= a.label_len { r.label_len == len && canon(&r) && agree(&r, a, len) } else { true };
+        if !ok {
+            out.push(fail("NodeLabel.get_prefix#E_prefix", "get_prefix", a, None, Some(len), "canonical prefix of that length".into(), show(&r)));
+        }
+        n += 1;
+    }
+    n
+}
+
+fn lcp_check<TC: Configuration>(a: &NodeLabel, b: &NodeLabel, out: &mut Vec<Failure>) {
+    let e = TC::empty_label();
+    let r = a.get_longest_common_prefix::<TC>(*b);
+    if *a == e || *b == e {
+        if r != e {
+            out.push(fail("NodeLabel.get_longest_common_prefix#E_empty", "lcp", a, Some(b), None, "the empty label".into(), show(&r)));
+        }
+        return;
+    }
+    let m = a.label_len.min(b.label_len);
+    let mut k = 0;
+    while k < m && bit(a, k) == bit(b, k) {
+        k += 1;
+    }
+    let ok = if k >= 256 { r == *a } else { r.label_len == k && canon(&r) && agree(&r, a, k) };
+    if !ok {
+        out.push(fail("NodeLabel.get_longest_common_prefix#E_lcp", "lcp", a, Some(b), None, format!("canonical common prefix of length {k}"), show(&r)));
+    }
+}
+
+fn check_pair(a: &NodeLabel, b: &NodeLabel, out: &mut Vec<Failure>) -> u64 {
+    let r = a.is_prefix_of(b);
+    if r != pfx(a, b) {
+        out.push(fail("NodeLabel.is_prefix_of#E_pfx", "is_prefix_of", a, Some(b), None, pfx(a, b).to_string(), r.to_string()));
+    }
+    lcp_check::<WhatsAppV1Configuration>(a, b, out);
+    lcp_check::<ExperimentalConfiguration<ExampleLabel>>(a, b, out);
+    let o = a.get_prefix_ordering(*b);
+    let proper = a.label_len < b.label_len && agree(a, b, a.label_len);
+    let exp = if !proper { PrefixOrdering::Invalid } else if bit(b, a.label_len) { PrefixOrdering::WithOne } else { PrefixOrdering::WithZero };
+    if o != exp {
+        out.push(fail("NodeLabel.get_prefix_ordering#E_invalid", "get_prefix_ordering", a, Some(b), None, format!("{exp:?}"), format!("{o:?}")));
+    }
+    let c = a.cmp(b);
+    let expc = a.label_len.cmp(&b.label_len).then(a.label_val.cmp(&b.label_val));
+    if c != expc {
+        out.push(fail("kani/c17_cmp_contract", "cmp", a, Some(b), None, format!("{expc:?}"), format!("{c:?}")));
+    }
+    5
+}
+
+fn small_labels(maxbits: u32, stray: bool) -> Vec<NodeLabel> {
+    let mut v = vec![];
+    for len in 0..=maxbits {
+        for val in 0..(1u32 << len) {
+            let mut bytes = [0u8; 32];
+            // place the `len` bits MSB-first
+            for i in 0..len {
+                if (val >> (len - 1 - i)) & 1 == 1 {
+                    bytes[(i / 8) as usize] |= 1 << (7 - (i % 8));
+                }
+            }
+            v.push(NodeLabel::new(bytes, len));
+            if stray && len < 16 {
+                // non-canonical variant: a stray one right after the label's last bit and in the last byte
+                let mut b2 = bytes;
+                b2[(len / 8) as usize] |= 1 << (7 - (len % 8));
+                b2[31] |= 1;
+                v.push(NodeLabel::new(b2, len));
+            }
+        }
+    }
+    v
+}
+
+fn boundary_labels() -> Vec<NodeLabel> {
+    let mut v = vec![];
+    let pats: [u8; 6] = [0x00, 0xff, 0xaa, 0x55, 0x80, 0x01];
+    let mut lens = vec![];
+    for k in 0..=32u32 {
+        for d in [-1i64, 0, 1] {
+            let l = 8 * k as i64 + d;
+            if (0..=256).contains(&l) {
+                lens.push(l as u32);
+            }
+        }
+    }
+    lens.sort();
+    lens.dedup();
+    for &len in &lens {
+        for &p in &pats {
+            let bytes = [p; 32];
+            // canonicalised and raw variants
+            v.push(NodeLabel::new(bytes, len).get_prefix_canon());
+            v.push(NodeLabel::new(bytes, len));
+        }
+    }
+    v
+}
+
+trait Canon {
+    fn get_prefix_canon(&self) -> NodeLabel;
+}
+impl Canon for NodeLabel {
+    fn get_prefix_canon(&self) -> NodeLabel {
+        // canonicalise with the *spec*, not with the code under test
+        let mut b = [0u8; 32];
+        for i in 0..self.label_len.min(256) {
+            if bit(self, i) {
+                b[(i / 8) as usize] |= 1 << (7 - (i % 8));
+            }
+        }
+        NodeLabel::new(b, self.label_len)
+    }
+}
+
+fn flip(l: &NodeLabel, i: u32) -> NodeLabel {
+    let mut b = l.label_val;
+    if i < 256 {
+        b[(i / 8) as usize] ^= 1 << (7 - (i % 8));
+    }
+    NodeLabel::new(b, l.label_len)
+}
+
+pub fn search(seed: u64, full: bool) -> SearchResult {
+    std::panic::set_hook(Box::new(|_| {}));
+    let mut out = vec![];
+    let mut n = 0u64;
+    let maxbits = if full { 10 } else { 7 };
+    let small = small_labels(maxbits, true);
+    for a in &small {
+        let r = std::panic::catch_unwind(|| {
+            let mut o = vec![];
+            let k = check_unary(a, &mut o);
+            (o, k)
+        });
+        match r {
+            Ok((o, k)) => { out.extend(o); n += k; }
+            Err(_) => out.push(fail("NodeLabel.get_prefix#body", "unary", a, None, None, "no panic".into(), "panic".into())),
+        }
+    }
+    for a in &small {
+        for b in &small {
+            let r = std::panic::catch_unwind(|| {
+                let mut o = vec![];
+                let k = check_pair(a, b, &mut o);
+                (o, k)
+            });
+            match r {
+                Ok((o, k)) => { out.extend(o); n += k; }
+                Err(_) => out.push(fail("NodeLabel.is_prefix_of#body", "pair", a, Some(b), None, "no panic".into(), "panic".into())),
+            }
+            if out.len() > 50 { break; }
+        }
+        if out.len() > 50 { break; }
+    }
+    let bl = boundary_labels();
+    let mut r = crate::rng::Rng(seed ^ 0xC17);
+    for a in &bl {
+        let _ = std::panic::catch_unwind(|| ()).is_ok();
+        let mut o = vec![];
+        n += check_unary(a, &mut o);
+        out.extend(o);
+        // related labels: same bits, neighbouring lengths; one bit flipped around the end
+        let mut rel = vec![];
+        for d in [-9i64, -8, -1, 0, 1, 8, 9] {
+            let l = a.label_len as i64 + d;
+            if (0..=256).contains(&l) {
+                rel.push(NodeLabel::new(a.label_val, l as u32));
+                rel.push(NodeLabel::new(a.label_val, l as u32).get_prefix_canon());
+            }
+        }
+        for i in [a.label_len.wrapping_sub(2), a.label_len.wrapping_sub(1), a.label_len, a.label_len + 1, 0, 255] {
+            if i < 256 {
+                rel.push(flip(a, i));
+                rel.push(NodeLabel::new(flip(a, i).label_val, (a.label_len + 8).min(256)));
+            }
+        }
+        for _ in 0..2 {
+            let mut b = a.label_val;
+            let k = r.below(32) as usize;
+            b[k] ^= (r.next() & 0xff) as u8;
+            rel.push(NodeLabel::new(b, r.below(257) as u32));
+        }
+        for b in &rel {
+            let mut o = vec![];
+            n += check_pair(a, b, &mut o);
+            n += check_pair(b, a, &mut o);
+            out.extend(o);
+        }
+        if out.len() > 50 { break; }
+    }
+    let _ = std::panic::take_hook();
+    SearchResult { evaluations: n, failures: out,
+        summary: format!("all label pairs up to {maxbits} bits (canonical and with stray bits) x {{is_prefix_of, lcp (both configurations), get_prefix_ordering, cmp}}, get_bit_at/get_prefix on each; all lengths 8k-1, 8k, 8k+1 with patterns 00 ff aa 55 80 01 and related labels") }
+}
+
+pub fn replay(case: &[&str]) -> (bool, String) {
+    std::panic::set_hook(Box::new(|_| {}));
+    let a = parse(case[1]);
+    let mut out = vec![];
+    match case[0] {
+        "get_bit_at" | "get_prefix" | "unary" => { check_unary(&a, &mut out); }
+        _ => {
+            let b = parse(case[2]);
+            let r = std::panic::catch_unwind(|| { let mut o = vec![]; check_pair(&a, &b, &mut o); o });
+            match r { Ok(o) => out.extend(o), Err(_) => return (true, "panic".into()) }
+        }
+    }
+    match out.first() { Some(f) => (true, format!("{}: expected {}, observed {}", f.input, f.expected, f.observed)), None => (false, "holds".into()) }
+}
